@@ -510,6 +510,12 @@ impl MediaStreamTrack for SampleStreamTrack {
 
     async fn recv(&self) -> MediaResult<MediaSample> {
         loop {
+            // Create the `Notified` future before looking at the state: it
+            // receives `notify_waiters()` wake-ups from the moment it exists,
+            // so a `stop()` / last-source drop racing with the checks below
+            // can no longer be missed (`notify_waiters` stores no permit).
+            let notified = self.notify.notified();
+
             if self.ended.load(Ordering::SeqCst) {
                 return Err(MediaError::EndOfStream);
             }
@@ -530,7 +536,7 @@ impl MediaStreamTrack for SampleStreamTrack {
 
             #[cfg(rustrtc_verif)]
             crate::media::verif_sched::point("track.recv.before_wait");
-            self.notify.notified().await;
+            notified.await;
             if self.source_closed.load(Ordering::Acquire) && self.queue.is_empty() {
                 self.ended.store(true, Ordering::SeqCst);
                 return Err(MediaError::EndOfStream);
